@@ -665,32 +665,57 @@ def tcp_line(c):
 
 def gen_tcp_cases(r, tier):
     cases = []
-    for i, (nm, kw) in enumerate(cred_matrix()):
+    cm = cred_matrix()
+    for i, (nm, kw) in enumerate(cm):
         c = Case(seed=i, ops=["C", "qc1", "qn2", "qc3"], **kw)
         c.kind = "tcp-cred/" + nm
         cases.append(c)
+        # requests submitted while the session is coming up: the wait inside coap_send is
+        # serviced (q) or times out (w: the message is queued, or CSM time-out)
+        c = Case(seed=i, ops=["C1", "wc1", "wn2", "wc3", "r", "qc4"], **kw)
+        c.kind = "tcp-queued/" + nm
+        cases.append(c)
+    for n in range(0, 9):
+        for ops in (["C%d" % n, "qc1", "qn2"], ["C%d" % n, "wc1", "wc2", "r", "qc3"],
+                    ["C%d" % n, "wc1", "wc2", "rel"], ["C%d" % n, "wc1", "qc2", "wc3", "r"]):
+            for kw in ({}, dict(skey=b"other")):
+                c = Case(seed=n, ops=ops, **kw)
+                c.kind = "tcp-sched"
+                cases.append(c)
+    # a send in every state of the set-up after the wait has already timed out once (no more
+    # waiting then): in particular in state CSM, between the local CSM and the peer's
+    for n0 in (0, 1, 2):
+        for n in range(0, 8):
+            for kw in ({}, dict(skey=b"other")):
+                c = Case(seed=n, ops=["C%d" % n0, "wc1", "r%d" % n, "qc2", "wc3", "r", "qc4"], **kw)
+                c.kind = "tcp-sched"
+                cases.append(c)
     inj = ["@req9", "40", "1603030005", "170303000a" + "41" * 10, "d1" + "00" * 20]
     for j in inj:
         for ops in (["C", "ic" + j, "qc1", "r50"], ["C", "qc1", "ic" + j, "qc2", "r50"],
                     ["C1", "ic" + j, "r", "qc1"], ["C2", "ic" + j, "r", "qc1"], ["C3", "ic" + j, "r", "qc1"],
                     ["C4", "ic" + j, "r", "qc1"], ["C6", "ic" + j, "r", "qc1"], ["C9", "ic" + j, "r", "qc1"],
-                    ["C", "is" + j, "qc1", "r50"], ["C2", "is" + j, "r", "qc1"], ["C4", "is" + j, "r", "qc1"]):
+                    ["C", "is" + j, "qc1", "r50"], ["C2", "is" + j, "r", "qc1"], ["C4", "is" + j, "r", "qc1"],
+                    ["C1", "wc1", "wc2", "ic" + j, "r", "r50"]):
             c = Case(seed=3, ops=ops)
             c.kind = "tcp-inject"
             cases.append(c)
-    n = 40 if tier == "quick" else 400
-    cm = cred_matrix()
+    n = 60 if tier == "quick" else 800
     for i in range(n):
         nm, kw = ("match", {}) if r.random() < 0.5 else r.choice(cm)
-        ops = ["C%d" % r.randrange(1, 12), "r"] if r.random() < 0.3 else ["C"]
-        for k in range(r.randrange(0, 6)):
+        ops = ["C%d" % r.randrange(0, 12)] if r.random() < 0.6 else ["C"]
+        nreq = 0
+        for _ in range(r.randrange(0, 8)):
             x = r.random()
-            if x < 0.6:
-                ops.append(("qc%d" if r.random() < 0.5 else "qn%d") % (k + 1))
-            elif x < 0.8:
+            if x < 0.55:
+                nreq += 1
+                ops.append(r.choice(["qc", "qn", "wc", "wn"]) + str(nreq))
+            elif x < 0.7:
                 ops.append(r.choice(["ic", "is"]) + r.choice(inj))
+            elif x < 0.9:
+                ops.append(r.choice(["r", "r1", "r2", "r5", "r30"]))
             else:
-                ops.append("r%d" % r.randrange(1, 60))
+                ops.append("rel")
         c = Case(seed=i, ops=ops, **kw)
         c.kind = "tcp-random/" + nm
         cases.append(c)
@@ -702,7 +727,7 @@ def tcp_oracle(case, trace, match):
     bad = []
     toks = trace.split()
     hs = {"c": False, "s": False}
-    q, sreq, rsp = [], [], []
+    q, sreq, rsp, nacked = [], [], [], []
     injected = any(op.startswith("i") for op in case.ops)
     for t in toks:
         f = t.split(":")
@@ -724,6 +749,8 @@ def tcp_oracle(case, trace, match):
             bad.append("TLS client session ESTABLISHED without a completed handshake")
         elif f[0] == "a.q" and f[1] != "skip" and f[2] != "-1":
             q.append(int(f[1]))
+        elif f[0] == "c.nack" and f[1] != "anon":
+            nacked.append(int(f[1]))
         elif f[0] == "n.dir":
             if "f" not in f[4]:
                 bad.append("bytes that are not TLS records on the %s->peer stream" % f[1])
@@ -731,10 +758,165 @@ def tcp_oracle(case, trace, match):
                 bad.append("cleartext CoAP in the %s->peer TCP stream" % f[1])
     if not match and (sreq or rsp):
         bad.append("application data exchanged over TLS although the credentials do not match")
-    if match and not injected and case.ops and case.ops[0] == "C":
+    if match and not injected and "rel" not in case.ops and case.ops and case.ops[0] == "C" \
+       and not any(op[0] == "w" for op in case.ops):
         if q != sreq or q != rsp:
             bad.append("TLS, matching credentials: requests %s, server saw %s, client saw %s" % (q, sreq, rsp))
+    # what the server handler saw arrived in submission order, each once
+    if [k for k in q if k in sreq] != sreq and sorted(set(sreq)) == sorted(sreq):
+        bad.append("TLS: requests reached the server handler out of order: submitted %s, seen %s" % (q, sreq))
+    # a request accepted by coap_send is answered, NACKed exactly once, or still in progress at the end;
+    # never both answered/seen by the server and NACKed while it was only queued
+    for k in set(nacked):
+        if nacked.count(k) > 1:
+            bad.append("TLS: request %d NACKed %d times" % (k, nacked.count(k)))
+    if not hs["c"]:
+        for k in q:
+            if nacked.count(k) != 1:
+                bad.append("TLS handshake never completed: queued request %d got %d NACKs (exactly one expected)" % (k, nacked.count(k)))
     for k in set(sreq):
         if sreq.count(k) > 1:
             bad.append("request %d delivered %d times over TLS" % (k, sreq.count(k)))
     return bad
+
+
+TCP_EVENTS = {0x0000, 0x01DE, 0x0200, 0x2001, 0x1001, 0x1002, 0x1003, 0x2002, 0x2003}
+
+
+class TcpSess:
+    def __init__(self, side):
+        self.side = side
+        self.steps = []       # [event, [outs]]
+        self.snaps = {}
+        self.hs, self.tx, self.rx = [], [], []
+        self.cur = None
+        self.stray = []
+        self.freed = False
+        self.kind = None      # kind of the PDU being dispatched in the current chunk
+
+    def start(self, ev, kind=None):
+        self.cur = [ev, []]
+        self.kind = kind
+        self.steps.append(self.cur)
+
+    def out(self, o, tok):
+        if self.cur is None:
+            self.stray.append(tok)
+        else:
+            self.cur[1].append(o)
+
+    def line(self):
+        def j(l):
+            return ",".join(str(x) for x in l) or "-"
+        steps = ["%s=%s%s" % (e, ",".join(o), ("@" + self.snaps[i]) if i in self.snaps else "")
+                 for i, (e, o) in enumerate(self.steps)]
+        return " ".join(["tgt", self.side, j(self.hs), j(self.tx), j(self.rx)] + steps)
+
+
+def tcp_sessions_of(trace):
+    """cut a trace of harness/h_tls_tcp.c into the event lists of the client and the server session"""
+    head, ops = split_ops(trace)
+    ss = {"c": None, "s": None}
+    out = []
+    pending = None          # (k, con) of the coap_send in progress
+    sent_started = False
+    for op, toks in ops:
+        if op.startswith("C") and ss["c"] is None and "a.nocs" not in toks:
+            ss["c"] = TcpSess("c")
+            out.append(("c", ss["c"]))
+            ss["c"].start("C")
+        for t in toks:
+            f = t.split(":")
+            if t.startswith("a.send:"):
+                pending = (int(f[1]), int(f[2]))
+                sent_started = False
+                if ss["c"]:
+                    ss["c"].cur = None
+                continue
+            if t.startswith("a.q:"):
+                c = ss["c"]
+                if c and pending and not c.freed:
+                    k = pending[0]
+                    if not sent_started:
+                        c.start("S%d:1" % k)
+                    outs = c.cur[1]
+                    txs = [o for o in outs if o.startswith("tx:%d:" % k)]
+                    if int(f[2]) == -1:
+                        if not (c.cur[0].startswith("S") and False):
+                            outs.append("ds:%d" % k)
+                    elif not txs or txs[-1].endswith(":-28"):
+                        outs.append("dq:%d:1" % k)
+                    c.cur = None
+                pending = None
+                continue
+            if t == "a.rel":
+                c = ss["c"]
+                if c and not c.freed:
+                    c.start("F")
+                    c.freed = True
+                continue
+            if t[:2] not in ("c.", "s.") or t.startswith("s.hsok") or t.startswith("c.hsok"):
+                continue
+            side = t[0]
+            x = ss[side]
+            k, _, rest = t[2:].partition(":")
+            if side == "s" and x is None:
+                if t == "s.ev:1001":
+                    x = ss["s"] = TcpSess("s")
+                    out.append(("s", x))
+                    x.start("A")
+                    x.out("ev:4097", t)
+                continue
+            if x is None:
+                continue
+            if x.freed and not (x.cur and x.cur[0] == "F"):
+                continue
+            if k == "st":
+                if rest != "gone" and x.steps:
+                    g = rest.split(":")
+                    x.snaps[len(x.steps) - 1] = "%s/%s/%s/%s/%s" % (g[0], g[1], g[2], g[3], g[4])
+                continue
+            if k in ("rr", "req", "rsp"):
+                continue
+            if k == "rd":
+                x.start("R")
+            elif k == "pdu":
+                x.start("D" + rest, int(rest))
+                x.out("dl:%s:0" % rest, t)
+            elif k == "wt":
+                x.start("W")
+            elif k == "ev":
+                e = int(rest, 16)
+                if e == 0x4002:
+                    x.start("F")
+                    x.freed = True
+                elif e == 0x1001 and side == "c":
+                    x.start("K1")
+                    x.out("ev:4097", t)
+                elif e == 0x1003 and side == "c" and x.steps and x.steps[-1][0] == "C":
+                    x.start("K0")
+                    x.out("ev:4099", t)
+                elif e in TCP_EVENTS:
+                    x.out("ev:%d" % e, t)
+            elif k == "hs":
+                x.hs.append(int(rest))
+                x.out("hs:%d" % int(rest), t)
+            elif k == "rx":
+                c = 1 if rest == "ok" else int(rest)
+                x.rx.append(c)
+                x.out("rx:%d" % c, t)
+            elif k == "tx":
+                i, _, code = rest.partition(":")
+                c = 1 if code == "ok" else int(code)
+                i = int(i)
+                if side == "c" and pending and i == pending[0] and not sent_started:
+                    x.start("S%d:1" % i)
+                    sent_started = True
+                elif x.kind in (1, 2, 4) and x.cur is not None and x.cur[0].startswith("D"):
+                    x.start("s%d:1" % i)      # the stack answers from inside dispatch
+                x.tx.append(c)
+                x.out("tx:%d:%d" % (i, c), t)
+            elif k == "nack":
+                a, _, r = rest.partition(":")
+                x.out("na:%s" % r if a == "anon" else "nk:%s:%s" % (a, r), t)
+    return out
